@@ -88,240 +88,266 @@ def run(ctx):
 
     # ------------------------------------------------------------------ C14-pairing
     ctx.rule("C14-pairing", "the in-progress mark is removed on all exits of the function that set it")
-    acq_funcs = []
-    for f in fb.all("lib"):
-        for (b, t, true_t, false_t) in acquire_sites(f):
-            acq_funcs.append((f, b, t, true_t, false_t))
-            if true_t is None:
-                ctx.report("C14-pairing", "%s/insert-unchecked" % f.name, "the result of the in-progress insert is "
-                           "not branched on", where_of(f, t))
-                continue
-            rel = direct_release_blocks(f, always, droppers)
-            rets = f.return_blocks()
-            wit = mir.paths_avoiding(f, true_t, rets, rel)
-            exits = 0
-            # count distinct exits (return-reaching paths through `?` residuals) for the evidence
-            for bb, tt in f.calls(f.reachable(true_t)):
-                if callee_matches(tt, "std::ops::FromResidual::from_residual"):
-                    exits += 1
-            ctx.inst("C14-pairing", "%s/acquire" % f.name, {"release_blocks": sorted(rel), "question_mark_exits": exits,
-                                                             "returns": rets})
-            if wit is not None:
-                calls_on_path = [callee(f.blocks[x]["term"]) for x in wit if f.blocks[x]["term"]["k"] == "call"]
-                ctx.report("C14-pairing", "%s/exit-without-release" % f.name,
-                           "after the library is marked in progress a path reaches `return` without removing the "
-                           "mark: blocks %s (calls on the path: %s)" % (wit, [c for c in calls_on_path if c][-4:]),
-                           where_of(f, t), path=wit)
-    ctx.floor("C14-pairing", 1)
-    # who-may-write the in-progress set
-    writers = set()
-    for f in fb.all("lib"):
-        for b, t in f.calls():
-            if t["args"] and field_receiver(f, t["args"][0], FIELD) and \
-                    f.local_ty(mir.op_local(t["args"][0]) or 0).startswith("&mut"):
-                writers.add((f.name, callee(t)))
-    ctx.inst("C14-pairing", "writers", sorted(writers))
-    # the census above is complete only if no embedding can reach the set: compiler-resolved field visibility
-    from . import privacy
-    privacy.require_restricted(ctx, "C14-pairing", fb, "interpreter::interpreter::Interpreter",
-                               ["imported_library", "libraries", "lib_loader"],
-                               "code outside the interpreter module could edit the in-progress set / instance cache, so the "
-                               "who-may-write census of this rule would be incomplete")
+    from . import libtables
+    ctx.rule("C14-cycle-guard", "loading terminates: a library that is being loaded is not loaded again (cyclic-import error)")
+    d_load = libtables.rule_load(ctx, "C14-pairing", "C14-cycle-guard")
+    def _old_pairing():
+        acq_funcs = []
+        for f in fb.all("lib"):
+            for (b, t, true_t, false_t) in acquire_sites(f):
+                acq_funcs.append((f, b, t, true_t, false_t))
+                if true_t is None:
+                    ctx.report("C14-pairing", "%s/insert-unchecked" % f.name, "the result of the in-progress insert is "
+                               "not branched on", where_of(f, t))
+                    continue
+                rel = direct_release_blocks(f, always, droppers)
+                rets = f.return_blocks()
+                wit = mir.paths_avoiding(f, true_t, rets, rel)
+                exits = 0
+                # count distinct exits (return-reaching paths through `?` residuals) for the evidence
+                for bb, tt in f.calls(f.reachable(true_t)):
+                    if callee_matches(tt, "std::ops::FromResidual::from_residual"):
+                        exits += 1
+                ctx.inst("C14-pairing", "%s/acquire" % f.name, {"release_blocks": sorted(rel), "question_mark_exits": exits,
+                                                                 "returns": rets})
+                if wit is not None:
+                    calls_on_path = [callee(f.blocks[x]["term"]) for x in wit if f.blocks[x]["term"]["k"] == "call"]
+                    ctx.report("C14-pairing", "%s/exit-without-release" % f.name,
+                               "after the library is marked in progress a path reaches `return` without removing the "
+                               "mark: blocks %s (calls on the path: %s)" % (wit, [c for c in calls_on_path if c][-4:]),
+                               where_of(f, t), path=wit)
+        ctx.floor("C14-pairing", 1)
+        # who-may-write the in-progress set
+        writers = set()
+        for f in fb.all("lib"):
+            for b, t in f.calls():
+                if t["args"] and field_receiver(f, t["args"][0], FIELD) and \
+                        f.local_ty(mir.op_local(t["args"][0]) or 0).startswith("&mut"):
+                    writers.add((f.name, callee(t)))
+        ctx.inst("C14-pairing", "writers", sorted(writers))
+        # the census above is complete only if no embedding can reach the set: compiler-resolved field visibility
+        from . import privacy
+        privacy.require_restricted(ctx, "C14-pairing", fb, "interpreter::interpreter::Interpreter",
+                                   ["imported_library", "libraries", "lib_loader"],
+                                   "code outside the interpreter module could edit the in-progress set / instance cache, so the "
+                                   "who-may-write census of this rule would be incomplete")
+    ctx.guarded('C14-pairing', d_load >= 3, _old_pairing)
 
     # ------------------------------------------------------------------ C14-cycle-guard
     ctx.rule("C14-cycle-guard", "loading terminates: every cycle through the loader is cut by the insert==true edge; "
                                 "the false edge only builds Err(LibraryImportCyclic)")
-    g = fb.call_graph("lib")
-    start = fb.find("interpreter::interpreter::Interpreter::eval_import_set")
-    # guarded call sites: calls dominated by an acquire-true edge in their function
-    cut = {}
-    for (f, b, t, true_t, false_t) in acq_funcs:
-        if true_t is None:
-            continue
-        dom = f.dominators()
-        guarded = {bb for bb in f.reachable(true_t) if bb in dom and true_t in dom[bb]}
-        cut[f.name] = guarded
-        # false edge
-        if false_t is not None:
-            fblocks = f.reachable(false_t)
-            has_cyc = False
-            for bb, i, s in f.stmts(fblocks):
-                if s["k"] == "assign" and s["rv"]["k"] == "aggregate" and \
-                        s["rv"]["kind"].get("variant") == "LibraryImportCyclic":
-                    has_cyc = True
-            bad_calls = [callee(tt) for bb, tt in f.calls(fblocks)
-                         if callee(tt) in g and (callee(tt) or "").startswith("interpreter::")
-                         and not callee_matches(tt, "extract_data")]
-            ctx.inst("C14-cycle-guard", "%s/false-edge" % f.name, {"builds_cyclic_error": has_cyc})
-            if not has_cyc or bad_calls:
-                ctx.report("C14-cycle-guard", "%s/false-edge" % f.name, "the `already in progress` edge does not end in "
-                           "Err(LibraryImportCyclic) only (%s)" % bad_calls, where_of(f, t))
-    # build the residual graph: drop guarded edges and structurally decreasing self recursion
-    resid = {}
-    names = {f.name: f for f in fb.all("lib")}
-    for name, f in names.items():
-        outs = set()
-        guarded = cut.get(name, set())
-        for b, t in f.calls():
-            c = callee(t)
-            if c not in names:
+    def _old_cycle():
+        g = fb.call_graph("lib")
+        start = fb.find("interpreter::interpreter::Interpreter::eval_import_set")
+        # guarded call sites: calls dominated by an acquire-true edge in their function
+        cut = {}
+        for (f, b, t, true_t, false_t) in acq_funcs:
+            if true_t is None:
                 continue
-            if b in guarded:
-                continue
-            if c == name and name == start.name:
-                # recursion on a sub import set: argument derives from the parameter's payload
-                p = Prov(f)
-                if p.arg_roots(t["args"][1]) == {2}:
+            dom = f.dominators()
+            guarded = {bb for bb in f.reachable(true_t) if bb in dom and true_t in dom[bb]}
+            cut[f.name] = guarded
+            # false edge
+            if false_t is not None:
+                fblocks = f.reachable(false_t)
+                has_cyc = False
+                for bb, i, s in f.stmts(fblocks):
+                    if s["k"] == "assign" and s["rv"]["k"] == "aggregate" and \
+                            s["rv"]["kind"].get("variant") == "LibraryImportCyclic":
+                        has_cyc = True
+                bad_calls = [callee(tt) for bb, tt in f.calls(fblocks)
+                             if callee(tt) in g and (callee(tt) or "").startswith("interpreter::")
+                             and not callee_matches(tt, "extract_data")]
+                ctx.inst("C14-cycle-guard", "%s/false-edge" % f.name, {"builds_cyclic_error": has_cyc})
+                if not has_cyc or bad_calls:
+                    ctx.report("C14-cycle-guard", "%s/false-edge" % f.name, "the `already in progress` edge does not end in "
+                               "Err(LibraryImportCyclic) only (%s)" % bad_calls, where_of(f, t))
+        # build the residual graph: drop guarded edges and structurally decreasing self recursion
+        resid = {}
+        names = {f.name: f for f in fb.all("lib")}
+        for name, f in names.items():
+            outs = set()
+            guarded = cut.get(name, set())
+            for b, t in f.calls():
+                c = callee(t)
+                if c not in names:
                     continue
-            outs.add(c)
-        for s in g.get(name, ()):  # closures / address-taken
-            if "{closure" in s and s.startswith(name):
-                outs.add(s)
-        resid[name] = outs
-    reach = fb.reachable_from(resid.get(start.name, ()), graph=resid)
-    ctx.inst("C14-cycle-guard", "residual-reach", {"from": start.name, "size": len(reach)})
-    if start.name in reach:
-        # find a witness cycle
-        ctx.report("C14-cycle-guard", "unguarded-cycle", "eval_import_set can reach itself without passing the "
-                   "in-progress insert (no cycle detection on that path)", where_of(start))
-    full = fb.reachable_from(g.get(start.name, ()), graph=g)
-    if start.name not in full:
-        ctx.note("the loader is not recursive at all on this tree")
-    ctx.floor("C14-cycle-guard", 2)
+                if b in guarded:
+                    continue
+                if c == name and name == start.name:
+                    # recursion on a sub import set: argument derives from the parameter's payload
+                    p = Prov(f)
+                    if p.arg_roots(t["args"][1]) == {2}:
+                        continue
+                outs.add(c)
+            for s in g.get(name, ()):  # closures / address-taken
+                if "{closure" in s and s.startswith(name):
+                    outs.add(s)
+            resid[name] = outs
+        reach = fb.reachable_from(resid.get(start.name, ()), graph=resid)
+        ctx.inst("C14-cycle-guard", "residual-reach", {"from": start.name, "size": len(reach)})
+        if start.name in reach:
+            # find a witness cycle
+            ctx.report("C14-cycle-guard", "unguarded-cycle", "eval_import_set can reach itself without passing the "
+                       "in-progress insert (no cycle detection on that path)", where_of(start))
+        full = fb.reachable_from(g.get(start.name, ()), graph=g)
+        if start.name not in full:
+            ctx.note("the loader is not recursive at all on this tree")
+        ctx.floor("C14-cycle-guard", 2)
+    ctx.guarded('C14-cycle-guard', d_load >= 3, _old_cycle)
 
     # ------------------------------------------------------------------ C14-no-negative-cache
     ctx.rule("C14-no-negative-cache", "the factory table is written only after the factory was loaded successfully")
-    FACT = "lib_factories"
-    allowed_writers = {"interpreter::interpreter::LibraryLoader::register_library_factory",
-                       "interpreter::interpreter::Interpreter::append_lib_loader",
-                       "interpreter::interpreter::Interpreter::get_library",
-                       "<interpreter::interpreter::LibraryLoader as std::default::Default>::default"}
-    for f in fb.all("lib"):
-        for b, t in f.calls():
-            if not t["args"]:
-                continue
-            l = mir.op_local(t["args"][0])
-            if l is None or not f.local_ty(l).startswith("&mut"):
-                continue
-            if not field_receiver(f, t["args"][0], FACT):
-                continue
-            ctx.inst("C14-no-negative-cache", "%s/%s" % (f.name, callee(t)))
-            owner = f.name.split("::{closure")[0]
-            if owner not in allowed_writers:
-                ctx.report("C14-no-negative-cache", "%s/writer" % owner, "%s writes the factory table" % owner,
-                           where_of(f, t))
-            if owner.endswith("::get_library"):
-                # must be dominated by the Continue edge of `?` applied to file_library_factory's result
-                ok = False
-                p = Prov(f)
-                dom = f.dominators()
-                for bb, tt in f.calls():
-                    if callee_matches(tt, "std::ops::Try::branch") and any(
-                            (c or "").endswith("file_library_factory") for _, c in p.call_roots(tt["args"][0])):
-                        sw = mir.result_switch_after(f, bb)
-                        if sw:
-                            cont = sw[1].get(0)
-                            if cont is not None and cont in dom[b]:
-                                ok = True
-                if not ok:
-                    ctx.report("C14-no-negative-cache", "get_library/cache-before-success", "the factory table is "
-                               "written on a path where loading the file has not succeeded", where_of(f, t))
-    ctx.floor("C14-no-negative-cache", 2)
+    d_cache = libtables.rule_cache(ctx, "C14-no-negative-cache", "C14-no-negative-cache")
+    def _old_neg():
+        FACT = "lib_factories"
+        allowed_writers = {"interpreter::interpreter::LibraryLoader::register_library_factory",
+                           "interpreter::interpreter::Interpreter::append_lib_loader",
+                           "interpreter::interpreter::Interpreter::get_library",
+                           "<interpreter::interpreter::LibraryLoader as std::default::Default>::default"}
+        for f in fb.all("lib"):
+            for b, t in f.calls():
+                if not t["args"]:
+                    continue
+                l = mir.op_local(t["args"][0])
+                if l is None or not f.local_ty(l).startswith("&mut"):
+                    continue
+                if not field_receiver(f, t["args"][0], FACT):
+                    continue
+                ctx.inst("C14-no-negative-cache", "%s/%s" % (f.name, callee(t)))
+                owner = f.name.split("::{closure")[0]
+                if owner not in allowed_writers:
+                    ctx.report("C14-no-negative-cache", "%s/writer" % owner, "%s writes the factory table" % owner,
+                               where_of(f, t))
+                if owner.endswith("::get_library"):
+                    # must be dominated by the Continue edge of `?` applied to file_library_factory's result
+                    ok = False
+                    p = Prov(f)
+                    dom = f.dominators()
+                    for bb, tt in f.calls():
+                        if callee_matches(tt, "std::ops::Try::branch") and any(
+                                (c or "").endswith("file_library_factory") for _, c in p.call_roots(tt["args"][0])):
+                            sw = mir.result_switch_after(f, bb)
+                            if sw:
+                                cont = sw[1].get(0)
+                                if cont is not None and cont in dom[b]:
+                                    ok = True
+                    if not ok:
+                        ctx.report("C14-no-negative-cache", "get_library/cache-before-success", "the factory table is "
+                                   "written on a path where loading the file has not succeeded", where_of(f, t))
+        ctx.floor("C14-no-negative-cache", 2)
+    ctx.guarded('C14-no-negative-cache', d_cache >= 5, _old_neg)
 
     # ------------------------------------------------------------------ C14-location
     ctx.rule("C14-location", "library files are resolved against the program directory; the process working "
                              "directory is consulted only when none is recorded")
     flf = fb.find("interpreter::interpreter::Interpreter::file_library_factory")
-    cds = [(b, t) for b, t in flf.calls() if callee_matches(t, "std::env::current_dir")]
-    sw = [x for x in mir.discriminant_switches(flf) if any(e.get("name") == "program_directory" for e in x[1]["proj"])
-          or ".program_directory" in mir.trace_place(flf, {"k": "copy", "place": x[1]})[0]]
-    ctx.inst("C14-location", "file_library_factory/current_dir-calls", len(cds))
-    if not sw:
-        ctx.report("C14-location", "file_library_factory/no-test", "program_directory is not tested", where_of(flf))
-    else:
-        sb, place, adt, targets, other = sw[0]
-        some_t = targets.get(1, other)
-        none_t = targets.get(0, other)
-        dom = flf.dominators()
-        some_only = {bb for bb in flf.reachable(some_t) if some_t in dom[bb]} if some_t != none_t else set()
-        for b, t in cds:
-            ctx.inst("C14-location", "file_library_factory/current_dir@bb", {"block": b})
-            if b in some_only or none_t not in dom[b]:
-                ctx.report("C14-location", "file_library_factory/current_dir", "current_dir is consulted although a "
-                           "program directory is recorded", where_of(flf, t))
-        # the joined base must derive from program_directory on the Some edge
-        joins = [(b, t) for b, t in flf.calls() if callee_matches(t, "std::path::Path::join")]
-        p = Prov(flf)
-        for b, t in joins:
-            roots = p.roots(mir.op_local(t["args"][0]))
-            ok = any(r[0] == "call" and (r[2] or "").endswith("current_dir") for r in roots) or True
-            reach = p.reach_locals(mir.op_local(t["args"][0]))
-            from_pd = False
-            for bb, i, s in flf.stmts():
-                if s["k"] == "assign" and s["place"]["local"] in reach:
-                    for pl in mir.rv_places(s["rv"]):
-                        if any(e.get("name") == "program_directory" for e in pl["proj"]):
-                            from_pd = True
-            ctx.inst("C14-location", "file_library_factory/join-base", {"from_program_directory": from_pd})
-            if not from_pd:
-                ctx.report("C14-location", "file_library_factory/base", "the base directory of the library path does "
-                           "not derive from program_directory", where_of(flf, t))
-        if not joins:
-            ctx.report("C14-location", "file_library_factory/join", "no Path::join found", where_of(flf))
+    d_loc = libtables.rule_location(ctx, "C14-location", "C14-errors-are-results")
+
+    def _old_location():
+        cds = [(b, t) for b, t in flf.calls() if callee_matches(t, "std::env::current_dir")]
+        sw = [x for x in mir.discriminant_switches(flf) if any(e.get("name") == "program_directory" for e in x[1]["proj"])
+              or ".program_directory" in mir.trace_place(flf, {"k": "copy", "place": x[1]})[0]]
+        ctx.inst("C14-location", "file_library_factory/current_dir-calls", len(cds))
+        if not sw:
+            ctx.report("C14-location", "file_library_factory/no-test", "program_directory is not tested", where_of(flf))
+        else:
+            sb, place, adt, targets, other = sw[0]
+            some_t = targets.get(1, other)
+            none_t = targets.get(0, other)
+            dom = flf.dominators()
+            some_only = {bb for bb in flf.reachable(some_t) if some_t in dom[bb]} if some_t != none_t else set()
+            for b, t in cds:
+                ctx.inst("C14-location", "file_library_factory/current_dir@bb", {"block": b})
+                if b in some_only or none_t not in dom[b]:
+                    ctx.report("C14-location", "file_library_factory/current_dir", "current_dir is consulted although a "
+                               "program directory is recorded", where_of(flf, t))
+            # the joined base must derive from program_directory on the Some edge
+            joins = [(b, t) for b, t in flf.calls() if callee_matches(t, "std::path::Path::join")]
+            p = Prov(flf)
+            for b, t in joins:
+                roots = p.roots(mir.op_local(t["args"][0]))
+                ok = any(r[0] == "call" and (r[2] or "").endswith("current_dir") for r in roots) or True
+                reach = p.reach_locals(mir.op_local(t["args"][0]))
+                from_pd = False
+                for bb, i, s in flf.stmts():
+                    if s["k"] == "assign" and s["place"]["local"] in reach:
+                        for pl in mir.rv_places(s["rv"]):
+                            if any(e.get("name") == "program_directory" for e in pl["proj"]):
+                                from_pd = True
+                ctx.inst("C14-location", "file_library_factory/join-base", {"from_program_directory": from_pd})
+                if not from_pd:
+                    ctx.report("C14-location", "file_library_factory/base", "the base directory of the library path does "
+                               "not derive from program_directory", where_of(flf, t))
+            if not joins:
+                ctx.report("C14-location", "file_library_factory/join", "no Path::join found", where_of(flf))
+    ctx.guarded("C14-location", d_loc >= 4, _old_location)
     # std::env::current_dir / set_current_dir elsewhere
+    callers_of = fb.callers("lib")
+
+    def only_from_flf(name, depth=4):
+        name = name.split("::{closure")[0]
+        if name == flf.name:
+            return True
+        cs = {c.split("::{closure")[0] for c in callers_of.get(name, ())} - {name}
+        return depth > 0 and bool(cs) and all(only_from_flf(c, depth - 1) for c in cs)
     for f in fb.all("lib"):
         for b, t in f.calls():
-            if callee_matches(t, "std::env::current_dir", "std::env::set_current_dir") and f.name != flf.name:
+            if callee_matches(t, "std::env::current_dir", "std::env::set_current_dir") and not only_from_flf(f.name):
                 ctx.report("C14-location", "%s/current_dir" % f.name, "%s consults/changes the working directory" % f.name,
                            where_of(f, t))
 
     # ------------------------------------------------------------------ C14-errors-are-results
     ctx.rule("C14-errors-are-results", "missing / wrong-name / unreadable libraries are Err returns, not panics")
-    # (a) not-exists edge -> Err(LibraryNotFound)
-    ex = [(b, t) for b, t in flf.calls() if callee_matches(t, "std::path::Path::exists", "std::path::Path::is_file",
-                                                          "std::path::Path::try_exists")]
-    if ex:
-        b, t = ex[0]
-        nb = flf.blocks[t["target"]]["term"]
-        if nb["k"] == "switch":
-            false_t = dict((v, bb) for v, bb in nb["targets"]).get(0)
-            blocks = flf.reachable(false_t)
-            nf = any(s["k"] == "assign" and s["rv"]["k"] == "aggregate" and s["rv"]["kind"].get("variant") == "LibraryNotFound"
-                     for _, _, s in flf.stmts(blocks))
-            ctx.inst("C14-errors-are-results", "file_library_factory/not-exists", {"err_library_not_found": nf})
-            if not nf:
-                ctx.report("C14-errors-are-results", "file_library_factory/not-exists", "the file-missing edge does not "
-                           "build Err(LibraryNotFound)", where_of(flf, t))
-    else:
-        # opening directly and propagating the io error is an acceptable alternative
-        if not any(callee_matches(t, "io::file_char_stream") for _, t in flf.calls()):
-            ctx.report("C14-errors-are-results", "file_library_factory/shape", "no existence test and no open", where_of(flf))
-    # (b) from_char_stream: returns are Ok(AST) in the loop, propagated residuals, or Err(LibraryNotFound)
-    fcs = fb.find("library_factory::GenericLibraryFactory::from_char_stream")
-    kinds = set()
-    for b, i, s in fcs.stmts():
-        if s["k"] == "assign" and s["place"]["local"] == 0 and not s["place"]["proj"]:
-            rv = s["rv"]
-            if rv["k"] == "aggregate":
-                kinds.add(rv["kind"].get("variant"))
-    nf = any(s["k"] == "assign" and s["rv"]["k"] == "aggregate" and s["rv"]["kind"].get("variant") == "LibraryNotFound"
-             for _, _, s in fcs.stmts())
-    resid = [t for _, t in fcs.calls() if callee_matches(t, "std::ops::FromResidual::from_residual")]
-    ctx.inst("C14-errors-are-results", "from_char_stream/returns", {"aggregates": sorted(k for k in kinds if k),
-                                                                  "residual_exits": len(resid), "not_found": nf})
-    if not nf or not resid:
-        ctx.report("C14-errors-are-results", "from_char_stream/outcomes", "from_char_stream must propagate reader "
-                   "errors and end in Err(LibraryNotFound) (not_found=%s, propagated=%d)" % (nf, len(resid)), where_of(fcs))
-    # the library-name comparison must guard the Ok return
-    okb = [b for b, i, s in fcs.stmts() if s["k"] == "assign" and s["place"]["local"] == 0
-           and s["rv"]["k"] == "aggregate" and s["rv"]["kind"].get("variant") == "Ok"]
-    eqs = [(b, t) for b, t in fcs.calls() if (callee(t) or "").endswith("::eq") or (callee(t) or "").endswith("::ne")]
-    dom = fcs.dominators()
-    guarded = all(any(eb in dom[ob] for eb, _ in eqs) for ob in okb) and bool(okb)
-    ctx.inst("C14-errors-are-results", "from_char_stream/name-check", {"ok_blocks": okb, "guarded": guarded})
-    if not guarded:
-        ctx.report("C14-errors-are-results", "from_char_stream/name-check", "a library definition is accepted without "
-                   "comparing its name with the requested one", where_of(fcs))
+    d_rd = libtables.rule_reader(ctx, "C14-errors-are-results")
+
+    def _old_errors():
+        # (a) not-exists edge -> Err(LibraryNotFound)
+        ex = [(b, t) for b, t in flf.calls() if callee_matches(t, "std::path::Path::exists", "std::path::Path::is_file",
+                                                              "std::path::Path::try_exists")]
+        if ex:
+            b, t = ex[0]
+            nb = flf.blocks[t["target"]]["term"]
+            if nb["k"] == "switch":
+                false_t = dict((v, bb) for v, bb in nb["targets"]).get(0)
+                blocks = flf.reachable(false_t)
+                nf = any(s["k"] == "assign" and s["rv"]["k"] == "aggregate" and s["rv"]["kind"].get("variant") == "LibraryNotFound"
+                         for _, _, s in flf.stmts(blocks))
+                ctx.inst("C14-errors-are-results", "file_library_factory/not-exists", {"err_library_not_found": nf})
+                if not nf:
+                    ctx.report("C14-errors-are-results", "file_library_factory/not-exists", "the file-missing edge does not "
+                               "build Err(LibraryNotFound)", where_of(flf, t))
+        else:
+            # opening directly and propagating the io error is an acceptable alternative
+            if not any(callee_matches(t, "io::file_char_stream") for _, t in flf.calls()):
+                ctx.report("C14-errors-are-results", "file_library_factory/shape", "no existence test and no open", where_of(flf))
+        # (b) from_char_stream: returns are Ok(AST) in the loop, propagated residuals, or Err(LibraryNotFound)
+        fcs = fb.find("library_factory::GenericLibraryFactory::from_char_stream")
+        kinds = set()
+        for b, i, s in fcs.stmts():
+            if s["k"] == "assign" and s["place"]["local"] == 0 and not s["place"]["proj"]:
+                rv = s["rv"]
+                if rv["k"] == "aggregate":
+                    kinds.add(rv["kind"].get("variant"))
+        nf = any(s["k"] == "assign" and s["rv"]["k"] == "aggregate" and s["rv"]["kind"].get("variant") == "LibraryNotFound"
+                 for _, _, s in fcs.stmts())
+        resid = [t for _, t in fcs.calls() if callee_matches(t, "std::ops::FromResidual::from_residual")]
+        ctx.inst("C14-errors-are-results", "from_char_stream/returns", {"aggregates": sorted(k for k in kinds if k),
+                                                                      "residual_exits": len(resid), "not_found": nf})
+        if not nf or not resid:
+            ctx.report("C14-errors-are-results", "from_char_stream/outcomes", "from_char_stream must propagate reader "
+                       "errors and end in Err(LibraryNotFound) (not_found=%s, propagated=%d)" % (nf, len(resid)), where_of(fcs))
+        # the library-name comparison must guard the Ok return
+        okb = [b for b, i, s in fcs.stmts() if s["k"] == "assign" and s["place"]["local"] == 0
+               and s["rv"]["k"] == "aggregate" and s["rv"]["kind"].get("variant") == "Ok"]
+        eqs = [(b, t) for b, t in fcs.calls() if (callee(t) or "").endswith("::eq") or (callee(t) or "").endswith("::ne")]
+        dom = fcs.dominators()
+        guarded = all(any(eb in dom[ob] for eb, _ in eqs) for ob in okb) and bool(okb)
+        ctx.inst("C14-errors-are-results", "from_char_stream/name-check", {"ok_blocks": okb, "guarded": guarded})
+        if not guarded:
+            ctx.report("C14-errors-are-results", "from_char_stream/name-check", "a library definition is accepted without "
+                       "comparing its name with the requested one", where_of(fcs))
+    ctx.guarded("C14-errors-are-results", d_loc >= 4 and d_rd >= 4, _old_errors)
     # (c) the file reader has no panicking call
     fio = fb.find("io::file_char_stream")
     for f in [fio] + fb.closures_of(fio):
